@@ -159,6 +159,10 @@ def run(R):
         R.ok('C11.PRV.1', inst, site(rr, alt[0][0]))
     else:
         R.fail('C11.PRV.1', inst, rr.qual, 'def _replicate_rules', 'alternative constraint sets / repeated rule definitions are not kept as separate chains', site(rr, rr.f.node))
+    R.ob('C11.SIB.2', 'match(): "same length" is judged on the name without a trailing implicit digest - and only without that: no other component is dropped')
+    from .lvs import digest_strip_types
+    if not digest_strip_types(R, 'C11.SIB.2', ctx(R, CK + '.Checker.match')):
+        R.defer('Checker.match: the test that drops a trailing implicit digest was not found (C11.SIB.2 undecided)')
     R.ob('C11.NUL.1', 'match(): the empty name is matched like any other (its absent last component is not inspected)')
     last_component_guarded(R, 'C11.NUL.1', ctx(R, CK + '.Checker.match'))
     # ------------------------------------------------------------------ save / load
